@@ -11,7 +11,7 @@ class SymList:
     def __init__(self, I, name, sort=None, wrap=None, unwrap=None, length=None, arr=None):
         self.I = I
         self.name = name
-        self.sort = sort or z3.IntSort()
+        self.sort = sort if sort is not None else z3.IntSort()
         self.wrap = wrap or (lambda t: t)
         self.unwrap = unwrap or (lambda v: v if is_z3(v) else z3.IntVal(v))
         e = I.e
@@ -76,7 +76,7 @@ class SymSet:
     def __init__(self, I, name, sort=None, unwrap=None, member=None):
         self.I = I
         self.name = name
-        self.sort = sort or z3.IntSort()
+        self.sort = sort if sort is not None else z3.IntSort()
         self.unwrap = unwrap or (lambda v: v if is_z3(v) else z3.IntVal(v))
         self.member = member if member is not None else \
             z3.Function(I.e.fresh_name(f'{name}_in'), self.sort, z3.BoolSort())
